@@ -71,3 +71,28 @@ def groups_disjoint(prop, pid, groups) -> Result:
     else:
         res.detail = "value groups pairwise disjoint"
     return res
+
+
+def numeric_range(prop, pid, group, lo, hi) -> Result:
+    """TOK-VAL for a numeric group: every text the group can capture is a decimal numeral whose
+    value lies in lo..hi  (g in L(group) and not (lo <= str.to_int(g) <= hi) is unsat)"""
+    pats, _ = e2.patterns()
+    p = pats.get(pid)
+    name = "{}.TOK-VAL[{}:{} in {}..{}]".format(prop, pid, group, lo, hi)
+    if p is None or group not in p.groups:
+        return Result(name, "z3", INCONCLUSIVE, detail="pattern/group not available")
+    x = X()
+    v = z3.StrToInt(x)
+    r, dt, ms = query([z3.InRe(x, p.groups[group]), z3.Or(v < lo, v > hi)], 60000)
+    res = Result(name, "z3", INCONCLUSIVE, seconds=dt, bounds="all strings of the group language (finite here), str.to_int", functions=["pattern %d group %s" % (pid, group)])
+    if r == "unsat":
+        res.verdict, res.detail = HOLDS, "every text of the group denotes an integer in %d..%d" % (lo, hi)
+    elif r == "sat":
+        rr = e2.real_regex()[pid]
+        res.cex = {"text": ms}
+        res.verdict = VIOLATED
+        res.replay = {"kernel": "reproduced", "text": ms}
+        res.detail = "group %s can capture %r" % (group, ms)
+    else:
+        res.detail = r
+    return res
